@@ -12,252 +12,340 @@ Definition show_fres (r : fres) : string :=
   end.
 Definition check (rs : list rune) : string := digest (show_fres (format_res rs)).
 Definition full (rs : list rune) : string := show_fres (format_res rs).
-Eval vm_compute in ("<<<M1676>>>" ++ check (runes_of_ascii "MetaData chars {
-    int8 Z9_,
-    float rootA `tab	here`,
-    T o `it's`,
-    roots int,
-    repeatCount MetaDataX,
-    float32 falsey `say ""hi""`,
-}
+Eval vm_compute in ("<<<M1867>>>" ++ check (runes_of_ascii "  options{
+    BodyLength
+    =	char[7
+    ]
 
-packet msg_type {
-    repeat f32 o,
-    @tag(0)
-    char[] A,
-    repeat char[] tag `say ""hi""`,
-    repeat char[0] Z9_,
-    zchar[1] lengthOf,
-    i64 T,
-    match float as leftPad {
-        007 : len,
-        ""it's"" : len,
-        ""it's"" : float,
-        [
-            255, 00, 1, ""abc"", ""abc"",
-            """ ++ [28040; 24687]%N ++ runes_of_ascii """, ""x y"", """"
-        ] : _x,
-        """" : len,
-        ""\" ++ [233]%N ++ runes_of_ascii """ : i64_,
-        //	t
-    },
-    roots {
-        char[1] Header @lengthOf(x_y_z),
-        body u128,// `tick` ""quote"" 'q'
-        char[] float,
-        chars @lengthOf(x) `doc`,
-    },
-    crc `it's`,
-    @calculatedFrom(""" ++ [128512]%N ++ runes_of_ascii """)
-    BodyLength `" ++ [28040; 24687; 31867; 22411]%N ++ runes_of_ascii "`,
-}
+    ;
 
-packet u128 {
-    lengthOf,
-    pack @lengthOf(u8x) `// not a comment`,
-    @leftPad(' ')
-    float {
-        match asx as charz {
-            [4294967296, 255, 42, """", ""1""] : u8x,
-            ""{,}"" : Foo,
-            42 : leftPad,
-            [
-                255, 4294967296,
-                ""a\""b"", ""it's""
-            ] : stringy,
-            3 : Header,
-        },
-        match o as Pad {
-            3 : i64_,
-        },
-        repeat string msg_type,
-        match packetx as lengthOf {
-            [""x y"", """"] : x_y_z,
-        },
-    },
-    i64 float,
-    repeat zchar[3] rootA `crlf
-    line`,
-    match msg_type as len {
-        ""CRC32"" : MetaDataX,
-    },
-    f32 A,
-    char[0123456789] chars `{ , }`,/// triple
-    @calculatedFrom(""a\""b"")
-    string string_ `" ++ [233]%N ++ runes_of_ascii "`,
-}")).
-Eval vm_compute in ("<<<M282>>>" ++ check (runes_of_ascii "// a // b
-packet stringy	{
-string zchar ,
-    repeat T
-, match
-u
-as  charz {
-007
-    //x
-    :
-//	t
-// @lengthOf(
-float// trailing space 
-,""\" ++ [233]%N ++ runes_of_ascii """ : Logon ""a	b"":
-//	t
-//	t
-pack, } , match uint8x as
-    // " ++ [27880; 37322]%N ++ runes_of_ascii "
-    roots
-{
-1
-    // `tick` ""quote"" 'q'
-    : len
-,	}
-//x
-// " ++ [27880; 37322]%N ++ runes_of_ascii "
-, }packet zchar {	roots options1
-    //x
-    `// not a comment` , int64 As
-,
-    i16 float
-    @lengthOf( falsey
-    // " ++ [27880; 37322]%N ++ runes_of_ascii "
-    ) `a\`
-    , int64 msg_type `tab	here`
-, @tag(0
-    // `tick` ""quote"" 'q'
-    ) repeat uint8x ,
-    @lengthOf(x
-    ) repeat metadata
-    , zchar[ 0 ]	int , uint64
-    zchar ,zchar[7 // " ++ [27880; 37322]%N ++ runes_of_ascii "
-]
-msg_type
-,
-@calculatedFrom(
+    } 
+  // c
+		// @lengthOf(
+    	packet asx	// " ++ [128512]%N ++ runes_of_ascii " emoji
+  	{ int16
+x_y_z ,
+@calculatedFrom( """"
+	)
+@lengthOf( 
+	    /// triple
+
+chars)	//
+repeat 
+repeatCount 
+charz 
 /// triple
-// " ++ [27880; 37322]%N ++ runes_of_ascii "
-""" ++ [28040; 24687]%N ++ runes_of_ascii """ ) crc
-, }
-root packet zchar { repeat
-leftPad,
-} packet
-A{
-@lengthOf(
-    string_ )	x@lengthOf( options1) `two words`,  string
-len ,	}packet	falsey{ i64_ @calculatedFrom(	""{,}"" ) , repeat
-string chars
-, zchar[ 7]calculatedFrom
-, Header
-    { char u`two words`, repeat char[] // c
-tag
-    `say ""hi""`	, Z9_
-    @lengthOf(
-T ) `line1
-line2` , } , msg_type @calculatedFrom( ""// no comment""
-    ) , @rightPad (// packet A { u8 x, }
-'\x00' )
-@lengthOf( asx )
-falsey
-,
-    } // packet A { u8 x, }")).
-Eval vm_compute in ("<<<M1835>>>" ++ check (runes_of_ascii "  options 
-    //x
-    // @lengthOf(
-  { Foo	= ""// no comment"" 
-/// triple
-//	t
-;	}
-packet
-    float{ }packet
+	// " ++ [27880; 37322]%N ++ runes_of_ascii "
+    	,@leftPad (
 
-    len  {
-@lengthOf(  _x
-) stringy
-{
+    )
 
-metadata
-    @calculatedFrom( ""a\\"" ) ,
-
-}
-, 
-//x
-//
-
-  }packet
-    asx
-	{@tag(
-    0  )
-	repeat float64 A `say ""hi""` ,
-    //
-      // trailing space 
-    i16
-    int 
-`say ""hi""`
-	,
-@calculatedFrom(
-
-    """ ++ [128512]%N ++ runes_of_ascii """
-)	lengthOf Header
+    i64_@calculatedFrom( 
+""\" ++ [233]%N ++ runes_of_ascii """ ) 
+`// not a comment`, tag
+    Z9_
 `two words`
-	,
-
-    f32a  zchar	,
-
-@rightPad (
-
-'0' )
-	repeat	string_ 
-    // packet A { u8 x, }
-  chars
-	``
-
-, 
-@tag(
-4294967296
-) @calculatedFrom(
-    ""a	b""
-
-)  repeat msg_type
-
-,@leftPad(
-
-)
-
-repeat	f64
-_x
 
     ,
 
-    repeat As
-    {  Logon @lengthOf(
-calculatedFrom	) `two words`  ,
+@lengthOf(
 
-repeat
-u64	o
-`u8 x,`
-	,  } ,
-@calculatedFrom( ""packet"" 
+    asx ) @calculatedFrom(
+""`tick`""
+)
+	match uint8x as matchKey { 0123456789
+	// packet A { u8 x, }
+  // a // b
+  :u8x
+	, 1
+
+    :zchar
+
+,
+	},
+u128
+@lengthOf( 
+u128// packet A { u8 x, }
+      )// " ++ [128512]%N ++ runes_of_ascii " emoji
+
+,
+    }
+	MetaData	msg_type{string	BodyLength
+`two words` ,
+options1// " ++ [128512]%N ++ runes_of_ascii " emoji
+	  i64_  ,
+
+} 	 // " ++ [128512]%N ++ runes_of_ascii " emoji
+    	packet roots
+
+{u
+``
+
+,
+@calculatedFrom(
+""a	b""
+	) match len
+    as
+
+    msg_type{ 
+// c
+  """ ++ [28040; 24687]%N ++ runes_of_ascii """
+
+    :
+    charz 
+}  ,
+crc	@calculatedFrom(
+    // packet A { u8 x, }
+	  // packet A { u8 x, }
+	""it's"" )
+
+    `a\` ,
+@leftPad
+
+    (
+
+    '0'	)@tag( 007
 )
 
-    repeat // @lengthOf(
-		uint8
-u,
+zchar[  // trailing space 
+  3 
+    // trailing space 
+
+	]falsey  ,	@calculatedFrom(  // `tick` ""quote"" 'q'
+    	""\n"" 
+) @calculatedFrom(
+""CRC32""  // c
+	)  
+  // trailing space 
+match 
+//x
+
+	Packet
+
+as // @lengthOf(
+  stringy {1:Pad 
+,	""it's""
+
+    : 
+f32a
+
+    ,
+    }  ,
+
+    @leftPad
+(' '
+
+)match// " ++ [27880; 37322]%N ++ runes_of_ascii "
+  int as
+a1
+{ 
+[ 0123456789
+
+,
+255]: options1
+	    //x
+    //x
+	}
+,
+    BodyLength
+
+    //
+
+	@calculatedFrom(
+    """ ++ [28040; 24687]%N ++ runes_of_ascii """  ) ,  float32 zchar	@calculatedFrom(
+""// no comment""  )
+
+,	@tag( 
+10 
+)
+
+zchar[  
+  // packet A { u8 x, }
+	1  ]rootA 
+,
+
+    }
+
+")).
+Eval vm_compute in ("<<<M1708>>>" ++ check (runes_of_ascii "  root
+    packet  // @lengthOf(
+	repeatCount {
+	@lengthOf( u8x 
+)
+	@calculatedFrom(  ""1""
+	)
+
+@tag(  007
+
+)
+repeat
+	zchar[42
+	]  Header `" ++ [28040; 24687; 31867; 22411]%N ++ runes_of_ascii "` ,
+	match options1	as asx  {
+255  
+      // `tick` ""quote"" 'q'
+
+  :
+    roots 
+,  }
+	,  // a // b
+	Header
+@lengthOf(
+// a // b
+options1)
+
+``
+
+, Header 	 //	t
+    	@lengthOf(	len 
+) 
+`{ , }` ,
+o 
+matchKey `u8 x,`	,  }
+
+packet packetx	{
+	zchar[
+
+    255]crc
+	,	}packet 
+Logon
+    {  body
+    { 
+float
+	{  repeat 
+Logon
+
+    trueish
+,
+
+} ,}  ,
+	@calculatedFrom( 
+  // `tick` ""quote"" 'q'
+  	""`tick`"" )
+repeat	char[
+0	]
+
+    f32a 
+, 
+match
+	body
+    as
+float{
+    [
+
+65535
+,
+    """ ++ [28040; 24687]%N ++ runes_of_ascii """]
+    :calculatedFrom,
+	},
+u32 float @calculatedFrom(
+
+""" ++ [233]%N ++ runes_of_ascii "t" ++ [233]%N ++ runes_of_ascii """// @lengthOf(
+)
+
+,	string
+
+    body
+@lengthOf(len
+
+) `
+`//
+, u8x@calculatedFrom( 
+""a\""b""	)
+//	t
+	  ,  //	t
+    float64
+    options1 @calculatedFrom(	""" ++ [128512]%N ++ runes_of_ascii """)
+	`it's`
+,  
+      //x
+  // trailing space 
+
+match 
+crc as
+
+chars  {
+
+    3 :
+options1 // @lengthOf(
+    ,
+    [ 10
+    ] :	_x
+
+    [""{,}"" 
+]
+	:options1,
+[
+
+    ""CRC32""	,
+""a\\""
+, ""a\\""
+, 
+""packet""
+
+    ,  7
+
+// `tick` ""quote"" 'q'
+	]	:As
+
+} 
+, 
+i16	msg_type ,
+
+    }
+
+")).
+Eval vm_compute in ("<<<M1398>>>" ++ check (runes_of_ascii "packet T {
+    match repeatCount as Packet {
+        ""packet"" : msg_type,
+        00 : Foo,
+        """ ++ [128512]%N ++ runes_of_ascii """ : trueish,
+        """" : repeatCount,
+        [4294967296, 65535] : u,
+    },
+    @calculatedFrom(""a\\"")
+    float32 len @lengthOf(string_),
+    stringy Pad,
+    roots {
+        repeat x_y_z `// not a comment`,
+        T `" ++ [233]%N ++ runes_of_ascii "`,
+    },
+    @tag(007)
+    _x {
+        // " ++ [128512]%N ++ runes_of_ascii " emoji
+        char[] body @calculatedFrom(""" ++ [233]%N ++ runes_of_ascii "t" ++ [233]%N ++ runes_of_ascii """),
+        repeat Pad ``,
+    },
+    match u as packetx {
+        // `tick` ""quote"" 'q'
+        [007, ""// no comment""] : T,
+        [""\" ++ [233]%N ++ runes_of_ascii """] : u8x,
+    },
+    @rightPad()
+    int8 _x,
+    @lengthOf(A)
+    match crc as metadata {
+        [00, 3, 1, 10, ""a\""b""] : Packet,
+        //	t
+        [4294967296, ""abc"", """"] : a1,
+        """ ++ [28040; 24687]%N ++ runes_of_ascii """ : repeatCount,
+    },
 }
 
-    packet uint8x {  @leftPad
-	( 
-'0' ) 
-  //	t
-	//x
-  zchar[ 
+options {
+}
 
-    // packet A { u8 x, }
-// " ++ [27880; 37322]%N ++ runes_of_ascii "
-  255
-]
-	metadata `a\`
+MetaData Header {
+    trueish Pad,
+}
 
-,	//
-    }// `tick` ""quote"" 'q'
-")).
+MetaData Z9_ {
+    char[] metadata,
+    Header A `doc`,
+    uint32 packetx,
+    int16 uint8x,
+    Header leftPad,
+}")).
 Eval vm_compute in ("<<<M1341>>>" ++ check (runes_of_ascii "options {
     StringPrefixLenType = u64;
     ArrayPrefixLenType = u32;
@@ -690,46 +778,33 @@ Z9_= false
     Foo	=true
 lengthOf
     = float64 }")).
-Eval vm_compute in ("<<<M1451>>>" ++ check (runes_of_ascii "  packet
-len
-	{ }
+Eval vm_compute in ("<<<M1767>>>" ++ check (runes_of_ascii "// top
+packet A {
+    // c2
+    u8 a,
+}// c6a
 
-options { 
-Z9_=
-    4294967296;
-
-_x =  // a // b
-	0
-f32a=zchar[
-42 ]
-;
+// c6b
+packet B {
+    u16 b,
 }
 
-root
-	packet 
-        // @lengthOf(
-	BodyLength 	 // trailing space 
-	{ }
-
-options
-{
-
-    string_
-	=
-	u32
-
-;
-	charz
-    = 
-	/// triple
-    	// packet A { u8 x, }
-    string ;
-	}
-
-packet
-len  {
-}
-")).
+// c13
+root packet P {
+    // c17a
+    // c17b
+    u8 K1,// c20
+    u8 K2,// c23a
+    // c23b
+    match K1 as M1 {
+        // c28a
+        // c28b
+        1 : A,
+    },
+    match K2 as M2 {
+        1 : B,
+    },
+}// c46")).
 Eval vm_compute in ("<<<M1847>>>" ++ check (runes_of_ascii "// top
 packet float {
     @rightPad()
